@@ -310,6 +310,15 @@ class ShapeEval:
     def ev_closure(self, b, clo, init, env):
         cl, ups = mir.closure_of(clo)
         if not cl:
+            f0 = unref(clo)
+            if f0[0] == "fn":
+                # a function path used as the closure (`.field(FieldBuilder::ty::<X>)`) is `|f| f.ty::<X>()`
+                hole = ("arg", -1, "<builder>")
+                info = mir.HDict({"name": f0[1], "decl": f0[1], "trait": None, "method": f0[1].split("::")[-1], "gargs": tuple(f0[2]), "rargs": (),
+                                  "resolved_impl": None, "bb": -1, "line": 0, "indirect": False, "fnop": None})
+                cenv = dict(env)
+                cenv[hole] = init
+                return self.ev(b, ("call", info, (hole,)), cenv)
             raise Unrecognised("expected a closure literal, got %s" % path_str(clo)[:100])
         cb = self.prog.body(cl)
         if cb is None:
